@@ -850,6 +850,10 @@ def parse_insn_operand(ctx, insn_name, operand_idx, **kwargs):
     if is_metacommand:
         if insn is not None and insn.operand_info:
             operand_type = insn.operand_info[min(operand_idx, len(insn.operand_info) - 1)]["type"]
+            if operand_type is types.CodeBlock:
+                # A code block is never parsed as an operand. Parse the excess
+                # operand as an expression; the compiler will report it.
+                operand_type = int
         else:
             # If the metacommand doesn't take any operand but was somehow passed
             # one, we can only hope this invalid operand does not break the
